@@ -23,6 +23,8 @@ func init() {
 	commands["once"] = func(a []string) int { return nativeMain("once", a) }
 	commands["av"] = func(a []string) int { return nativeMain("av", a) }
 	commands["pool"] = func(a []string) int { return nativeMain("pool", a) }
+	commands["mapstress"] = func(a []string) int { return nativeMain("mapstress", a) }
+	commands["setstress"] = func(a []string) int { return nativeMain("setstress", a) }
 }
 
 type event struct {
@@ -74,6 +76,10 @@ func nativeMain(kind string, args []string) int {
 			header, comment, lines = avScenario(r)
 		case "pool":
 			header, comment, lines = poolScenario(r)
+		case "mapstress":
+			header, comment, lines = mapStress(r)
+		case "setstress":
+			header, comment, lines = setStress(r)
 		}
 		fmt.Fprintln(w, "reset")
 		fmt.Fprintln(w, "# "+comment)
@@ -275,4 +281,126 @@ func poolScenario(r *rand.Rand) (string, string, []string) {
 		h = 1
 	}
 	return fmt.Sprintf("pool %d", h), fmt.Sprintf("pool hasnew=%d workers=%d ops=%d", h, nw, nops), rec.lines()
+}
+
+// ---------------------------------------------------------------------------------------------- C04 / C05 native histories
+
+func mapStress(r *rand.Rand) (string, string, []string) {
+	nw := 2 + r.Intn(3)
+	nops := 3 + r.Intn(4)
+	keys := 1 + r.Intn(3)
+	rec := &recorder{}
+	m := &sync2.Map[int, int]{}
+	// age the map sequentially so that promoted / amended / expunged layouts occur
+	for j, n := 0, r.Intn(6); j < n; j++ {
+		k := r.Intn(keys + 1)
+		switch r.Intn(3) {
+		case 0:
+			rec.log("inv 0 store %d %d", k, 100+j)
+			m.Store(k, 100+j)
+			rec.log("res 0 done")
+		case 1:
+			rec.log("inv 0 load %d", k)
+			v, ok := m.Load(k)
+			rec.log("res 0 %d %s", v, btoa(ok))
+		default:
+			rec.log("inv 0 delete %d", k)
+			m.Delete(k)
+			rec.log("res 0 done")
+		}
+	}
+	seeds := make([]int64, nw)
+	for i := range seeds {
+		seeds[i] = r.Int63()
+	}
+	var wg sync.WaitGroup
+	start := make(chan struct{})
+	for t := 0; t < nw; t++ {
+		wg.Add(1)
+		go func(t int) {
+			defer wg.Done()
+			lr := rand.New(rand.NewSource(seeds[t]))
+			<-start
+			for j := 0; j < nops; j++ {
+				k := lr.Intn(keys)
+				v := 10*t + j + 1
+				switch lr.Intn(8) {
+				case 0, 1:
+					rec.log("inv %d store %d %d", t, k, v)
+					m.Store(k, v)
+					rec.log("res %d done", t)
+				case 2, 3:
+					rec.log("inv %d load %d", t, k)
+					x, ok := m.Load(k)
+					rec.log("res %d %d %s", t, x, btoa(ok))
+				case 4:
+					rec.log("inv %d loadorstore %d %d", t, k, v)
+					x, l := m.LoadOrStore(k, v)
+					rec.log("res %d %d %s", t, x, btoa(l))
+				case 5:
+					rec.log("inv %d loadanddelete %d", t, k)
+					x, l := m.LoadAndDelete(k)
+					rec.log("res %d %d %s", t, x, btoa(l))
+				case 6:
+					rec.log("inv %d delete %d", t, k)
+					m.Delete(k)
+					rec.log("res %d done", t)
+				default:
+					rec.log("inv %d range", t)
+					out := [][2]int{}
+					m.Range(func(k, v int) bool { out = append(out, [2]int{k, v}); return true })
+					rec.log("res %d %s", t, fmtPairs(out))
+				}
+			}
+		}(t)
+	}
+	close(start)
+	wg.Wait()
+	return "cmap", fmt.Sprintf("native map workers=%d ops=%d keys=%d", nw, nops, keys), rec.lines()
+}
+
+func setStress(r *rand.Rand) (string, string, []string) {
+	nw := 2 + r.Intn(5)
+	nops := 3 + r.Intn(4)
+	vals := 1 + r.Intn(3)
+	rec := &recorder{}
+	s := &sync2.Set[int]{}
+	seeds := make([]int64, nw)
+	for i := range seeds {
+		seeds[i] = r.Int63()
+	}
+	var wg sync.WaitGroup
+	start := make(chan struct{})
+	for t := 0; t < nw; t++ {
+		wg.Add(1)
+		go func(t int) {
+			defer wg.Done()
+			lr := rand.New(rand.NewSource(seeds[t]))
+			<-start
+			for j := 0; j < nops; j++ {
+				v := lr.Intn(vals)
+				switch lr.Intn(7) {
+				case 0, 1, 2:
+					rec.log("inv %d add %d", t, v)
+					ok := s.Add(v)
+					rec.log("res %d %s", t, btoa(ok))
+				case 3, 4:
+					rec.log("inv %d remove %d", t, v)
+					ok := s.Remove(v)
+					rec.log("res %d %s", t, btoa(ok))
+				case 5:
+					rec.log("inv %d has %d", t, v)
+					ok := s.Has(v)
+					rec.log("res %d %s", t, btoa(ok))
+				default:
+					rec.log("inv %d len", t)
+					n := s.Len()
+					rec.log("res %d %d", t, n)
+				}
+			}
+		}(t)
+	}
+	close(start)
+	wg.Wait()
+	return "cset", fmt.Sprintf("native set workers=%d ops=%d values=%d", nw, nops, vals), rec.lines()
 }
